@@ -888,7 +888,14 @@ func (e *Engine) makeSlice(fr *Frame, x *ssa.MakeSlice) Value {
 	ok := e.ts.And(e.ts.Sle(e.ts.Const(64, 0), lt), e.ts.Sle(lt, ct))
 	e.checkOK(ok, "makeslice: len out of range")
 	n := e.concreteAllocLen(lt, esz)
-	c := e.concreteAllocLen(ct, esz)
+	var c int
+	if !ct.IsConst() && !e.cfg.AllocIsViol {
+		// a symbolic capacity (with a concrete length) is only a hint: allocate exactly the length;
+		// cap() of such a slice is not tracked (outside the allocation-monitor properties)
+		c = n
+	} else {
+		c = e.concreteAllocLen(ct, esz)
+	}
 	e.allocBytes(int64(c) * esz)
 	return e.newSlice(et, n, c, fr.fn.Name())
 }
